@@ -5,6 +5,7 @@ CFG = dict(
     level_note="placeholder",
     rule="placeholder",
     spec_what="symbolization changed something other than names/lines/flags, or left an invalid profile (C12 statement)",
+    shard=150,
     trusted_base=[],
     assumptions=[],
 )
